@@ -48,6 +48,9 @@ def run(ctx):
         import c12
         ctx.guard("short-circuit" + tag, c12.fan_outs, ctx, crate, tag, "resolvo::solver::cache::", 1)
         ctx.guard("result-must-use" + tag, c12.results_used, ctx, crate, tag, ("resolvo::solver::cache::",), 0)
+        # a repeated query is answered from the table alone: the provider is not even polled for cancellation on a hit (seed C20-13)
+        import c04
+        ctx.guard("cached-implies-ok" + tag, c04.cached_implies_ok, ctx, crate, crs, tag)
 
 
 def sorted_provenance(ctx, crate, crs, tag):
